@@ -9,8 +9,8 @@ crosscov_vector / autocov_vector, generate_mar, bayesian / akaike information cr
 (lists of rows of complex binary64, Gauss–Jordan inverse), `Props/C11.lean` instantiates the same
 definition at any star ring (in particular complex matrices) and ties it to `Lemmas/BlockLevinson`.
 
-Two variants of `MAR_est_LWR` (DESIGN §4): `marEstLWRCurrent` = today's code (`nlags=order`, i.e.
-order−1 coefficient matrices), `marEstLWR` = intended (`nlags=order+1`).
+`MAR_est_LWR(x, order)` requests `nlags = order + 1` lags (the off-by-one `nlags = order` found by
+this check was repaired in /repo; finding `mar/order-off-by-one`, now status fixed).
 -/
 import Nitime.Model.ARBase
 
@@ -52,13 +52,13 @@ def lwrLoop (r : Nat → M) : Nat → LWRSt M
 /-- `lwr_recursion(r)` for `r` of shape `(P+1, nc, nc)`: `(a, sigf)` -/
 def lwr (r : Nat → M) (P : Nat) : List M × M := ((lwrLoop r P).a, (lwrLoop r P).sigf)
 
-/-- number of lags `MAR_est_LWR(x, order)` requests from `autocov_vector`: today's code passes
-`nlags=order` (`intended = false`); the documented order-`P` model needs `order + 1` -/
-def marLags (intended : Bool) (order : Nat) : Nat := if intended then order + 1 else order
+/-- number of lags `MAR_est_LWR(x, order)` requests from `autocov_vector` (`nlags=order + 1`) -/
+def marLags (order : Nat) : Nat := order + 1
 
-/-- `MAR_est_LWR(x, order)` given the lagged covariances `R` of `x` -/
-def marEstLWR (intended : Bool) (R : Nat → M) (order : Nat) : List M × M :=
-  lwr R (marLags intended order - 1)
+/-- `MAR_est_LWR(x, order)` given the lagged covariances `R` of `x`
+(`lwr_recursion` on `marLags order` lags, i.e. `P = nlags − 1`) -/
+def marEstLWR (R : Nat → M) (order : Nat) : List M × M :=
+  lwr R (marLags order - 1)
 
 end lwr
 
@@ -172,14 +172,11 @@ def handle (args : List String) : String :=
     | some nc, some nl, some zs =>
       if nc = 0 then "bad-op" else "ok " ++ showMats (autocovMats nc (zs.length / nc) nl zs)
     | _, _, _ => "bad-op"
-  | ["mar", variant, nc, order, xs] => match nc.toNat?, order.toNat?, parseCList? xs with
+  | ["mar", nc, order, xs] => match nc.toNat?, order.toNat?, parseCList? xs with
     | some nc, some order, some zs =>
       if nc = 0 then "bad-op" else
-      let intended := variant = "intended"
-      let nl := marLags intended order
-      if nl = 0 then "err IndexError" else
-      let rs := autocovMats nc (zs.length / nc) nl zs
-      let r := marEstLWR (M := SqMat nc) intended (fun k => rs.getD k (Mat.zeros nc)) order
+      let rs := autocovMats nc (zs.length / nc) (marLags order) zs
+      let r := marEstLWR (M := SqMat nc) (fun k => rs.getD k (Mat.zeros nc)) order
       "ok " ++ showMats r.1 ++ " " ++ showMats [r.2]
     | _, _, _ => "bad-op"
   | ["fit", crit, order, maxo, xs] => match order.toInt?, maxo.toNat?, parseCList? xs with
